@@ -1,5 +1,6 @@
 import IstioModel.C04.Driver
 import IstioModel.C04.Process
+import IstioModel.C04.Recv
 
 /-!
 Line-protocol driver for the streams added in review round 2 (`proc`, `dproc`, ...); every other
@@ -117,15 +118,57 @@ def stepProc (p : PState) (toks : List String) : PState × String :=
   | ["dpush"] => p.finish (pushConnDeltaC p.gen p.srv)
   | _ => (p, "bad-op")
 
+/-! ### stream recv -/
+
+def TyK.ofTok : String → Option TyK
+  | "health" => some .health | "debug" => some .debug | "debugx" => some .debugx
+  | "unknown3" => some .unknown3 | "unknown" => some .unknown | "empty" => some .empty
+  | "cds" => some .cds | "eds" => some .eds | _ => none
+
+def TyK.tok : TyK → String
+  | .health => "health" | .debug => "debug" | .debugx => "debugx" | .unknown3 => "unknown3"
+  | .unknown => "unknown" | .empty => "empty" | .cds => "cds" | .eds => "eds"
+
+def NodeK.ofTok : String → Option NodeK
+  | "nil" => some .nil | "noid" => some .noid | "few" => some .few | "badtype" => some .badtype
+  | "noip" => some .noip | "ok" => some .ok | _ => none
+
+def decFReq (tok : String) : Option FReq :=
+  match tok.splitOn "/" with
+  | [t, n] => match TyK.ofTok t, NodeK.ofTok n with
+    | some t, some n => some { ty := t, node := n }
+    | _, _ => none
+  | _ => none
+
+def RecvErr.tok : RecvErr → String
+  | .none => "none" | .missingNode => "missing-node" | .badNode => "bad-node"
+
+def stepRecv (toks : List String) : String :=
+  match toks with
+  | ["recv", mode, items] =>
+    let reqs := if items == "-" then [] else (items.splitOn ";").filterMap decFReq
+    match recv reqs with
+    | .crash => "crash"
+    | .done o =>
+      let fwd := if o.fwd.isEmpty then "-" else ",".intercalate (o.fwd.map toString)
+      let tys := o.fwd.filterMap fun i => (reqs[i]?).map (·.ty)
+      let procs := (procSeq (mode == "delta") [] tys).map fun (t, c) =>
+        s!"{t.tok}:{c.1}:{boolTok c.2.1}:{boolTok c.2.2}"
+      let pr := if procs.isEmpty then "-" else ";".intercalate procs
+      s!"fwd={fwd} err={o.err.tok} init={boolTok o.init} proc={pr}"
+  | _ => "bad-op"
+
 def stepP (p : PState) (toks : List String) : PState × String :=
   match toks with
   | ["case", _, "proc"] => ({ base := p.base, stream := "proc" }, "ok")
   | ["case", _, "dproc"] => ({ base := p.base, stream := "dproc" }, "ok")
+  | ["case", _, "recv"] => ({ base := p.base, stream := "recv" }, "ok")
   | "case" :: _ =>
     let (b, o) := stepD p.base toks
     ({ base := b, stream := "" }, o)
   | _ =>
     if p.stream == "proc" || p.stream == "dproc" then stepProc p toks
+    else if p.stream == "recv" then (p, stepRecv toks)
     else
       let (b, o) := stepD p.base toks
       ({ p with base := b }, o)
